@@ -514,6 +514,9 @@ public:
   /// Mark as unused. Use index only.
   virtual void MarkAsUnused(int i) = 0;
 
+  /// Revert MarkAsUnused(): the item is referenced again
+  virtual void MarkAsUsed(int i) = 0;
+
   /// Is constraint \a i unused?
   virtual bool IsUnused(int i) const = 0;
 
@@ -842,14 +845,24 @@ protected:
     bool IsUnused() const { return is_unused_; }
     /// Mark as unused
     void MarkAsUnused() {
-      MarkAsBridged();
+      if (!is_bridged_) {
+        MarkAsBridged();
+        bridged_as_unused_=true;
+      }
       is_unused_=true;
+    }
+    /// Revert MarkAsUnused()
+    void MarkAsUsed() {
+      if (bridged_as_unused_)      // was not reformulated
+        is_bridged_=bridged_as_unused_=false;
+      is_unused_=false;
     }
 
     Constraint con_;
     int depth_ = 0;
     bool is_bridged_ = false;
     bool is_unused_ = false;
+    bool bridged_as_unused_ = false;
   };
 
 	/// Convert all new constraints of this type
@@ -967,6 +980,17 @@ public:
   /// Use index only.
   void MarkAsUnused(int i) override {
     MarkAsUnused(cons_.at(i), i);
+  }
+
+  /// Revert MarkAsUnused() for constraint \a i
+  void MarkAsUsed(int i) override {
+    auto& cnt = cons_.at(i);
+    if (cnt.IsUnused()) {
+      cnt.MarkAsUsed();
+      --n_bridged_or_unused_;
+      if (i_cvt_last_ >= i)          // let the conversion loop
+        i_cvt_last_ = i-1;           // consider it (again)
+    }
   }
 
   /// Is constraint \a i unused?
